@@ -302,8 +302,9 @@ def versions():
 
 
 def write_replay(prop, world_cls, profile, rec, tag):
-    os.makedirs(os.path.join(VERIF, 'replays'), exist_ok=True)
-    path = os.path.join(VERIF, 'replays', f'{prop}-{tag}.json')
+    rdir = os.environ.get('VERIF_REPLAY_DIR') or os.path.join(VERIF, 'replays')
+    os.makedirs(rdir, exist_ok=True)
+    path = os.path.join(rdir, f'{prop}-{tag}.json')
     with open(path, 'w') as f:
         json.dump(rec, f, indent=1, default=str)
     return path
